@@ -485,23 +485,25 @@ package k8s
 //@ pred validQuery(protocol string, port string) = !(protocol == "" && port == "") && 1 <= atoiVal(port) && atoiVal(port) <= 65535
 
 //@ func (*NetworkPolicy).IngressAllowedConn
-//@   hide peerMatch, portMatch
-//@   requires np != nil && np.NetworkPolicy != nil && realPeer(src) && realDst(dst) && validNP(np) && validQuery(protocol, port)
+//@   hide peerMatch
+//@   ensures [C03] agrees: (res1 == nil && canonQuery(protocol, port)) ==> res0 == ingressPolicyPts(np, src, dst, canonProto(protocol), atoiVal(port))
+//@   requires np != nil && np.NetworkPolicy != nil && realPeer(src) && realDst(dst) && validNP(np)
 //@   modifies *
-//@   ensures [C03] def: res1 == nil ==> (res0 == (exists k int :: {np.Spec.Ingress[k]} 0 <= k && k < len(np.Spec.Ingress)
+//@   ensures [C03] def: (res1 == nil && validQuery(protocol, port)) ==> (res0 == (exists k int :: {np.Spec.Ingress[k]} 0 <= k && k < len(np.Spec.Ingress)
 //@         && peerMatch(np, np.Spec.Ingress[k].From, src) && portsContain(np.Spec.Ingress[k].Ports, dst, protocol, port)))
 //@   loop 1:
-//@     invariant none: forall k int :: {np.Spec.Ingress[k]} (0 <= k && k <= rangeindex) ==>
+//@     invariant none: validQuery(protocol, port) ==> forall k int :: {np.Spec.Ingress[k]} (0 <= k && k <= rangeindex) ==>
 //@         !(peerMatch(np, np.Spec.Ingress[k].From, src) && portsContain(np.Spec.Ingress[k].Ports, dst, protocol, port))
 
 //@ func (*NetworkPolicy).EgressAllowedConn
-//@   hide peerMatch, portMatch
-//@   requires np != nil && np.NetworkPolicy != nil && realPeer(dst) && realDst(dst) && validNP(np) && validQuery(protocol, port)
+//@   hide peerMatch
+//@   ensures [C03] agrees: (res1 == nil && canonQuery(protocol, port)) ==> res0 == egressPolicyPts(np, dst, canonProto(protocol), atoiVal(port))
+//@   requires np != nil && np.NetworkPolicy != nil && realPeer(dst) && realDst(dst) && validNP(np)
 //@   modifies *
-//@   ensures [C03] def: res1 == nil ==> (res0 == (exists k int :: {np.Spec.Egress[k]} 0 <= k && k < len(np.Spec.Egress)
+//@   ensures [C03] def: (res1 == nil && validQuery(protocol, port)) ==> (res0 == (exists k int :: {np.Spec.Egress[k]} 0 <= k && k < len(np.Spec.Egress)
 //@         && peerMatch(np, np.Spec.Egress[k].To, dst) && portsContain(np.Spec.Egress[k].Ports, dst, protocol, port)))
 //@   loop 1:
-//@     invariant none: forall k int :: {np.Spec.Egress[k]} (0 <= k && k <= rangeindex) ==>
+//@     invariant none: validQuery(protocol, port) ==> forall k int :: {np.Spec.Egress[k]} (0 <= k && k <= rangeindex) ==>
 //@         !(peerMatch(np, np.Spec.Egress[k].To, dst) && portsContain(np.Spec.Egress[k].Ports, dst, protocol, port))
 
 // C03 at policy level: membership of (protocol, port) in what list computes for a policy == what eval answers for it
